@@ -158,6 +158,9 @@ pub enum EKind {
     MaybeNone,
     /// literal source text (planted faults / perturbations); printed as is
     Raw(String),
+    /// transparent marker around a perturbed expression: printed as its content; the reference interpreter
+    /// counts how often it is evaluated
+    Mark(Box<Expr>),
 }
 
 #[derive(Clone, Debug, PartialEq, Serialize, Deserialize)]
